@@ -71,7 +71,7 @@ def spy_call(f, *a, **k):
 
 # --------------------------------------------------------------------------------------------------- kind "rxn"
 
-def rxn_obs(rsmi, gr_ord_obs, total_h):
+def rxn_obs(rsmi, gr_ord_obs, total_h, gr_obs):
     from synkit.IO.chem_converter import rsmi_to_its, its_to_rsmi, graph_to_rsmi, rsmi_to_graph
     out = []
     for core, eh in ((False, False), (True, False), (False, True), (True, True)):
@@ -84,6 +84,22 @@ def rxn_obs(rsmi, gr_ord_obs, total_h):
     for eh in (False, True):
         r, p = rsmi_to_graph(rsmi)
         out.append(spy_call(graph_to_rsmi, r, p, None, False, eh).mols())
+    # results handed to the caller are the caller's: mutate them, then ask again (a cache that shares mutable results would show)
+    from synkit.IO.chem_converter import its_to_gml, gml_to_its
+    a = rsmi_to_its(rsmi)
+    r0, p0 = rsmi_to_graph(rsmi)
+    text = its_to_gml(rsmi_to_its(rsmi))
+    b = gml_to_its(text)
+    for G in (a, b):
+        for n in list(G.nodes)[:1]:
+            G.nodes[n]["charge"] = 99
+            G.nodes[n]["typesGH"] = (("Xx", False, 9, 9, []), ("Xx", False, 9, 9, []))
+            G.remove_node(n)
+    r0.clear()
+    p0.add_node(10 ** 6, element="Xx")
+    out.append(gr_ord_obs(rsmi_to_its(rsmi)))
+    out.append(gr_obs(gml_to_its(text)))
+    out.append(gr_obs(gml_to_its(its_to_gml(rsmi_to_its(rsmi)))))
     return out
 
 
@@ -106,6 +122,17 @@ def rxn_clauses(rsmi, total_h, rule_struct, iso_struct, text_to_rec, fail):
         if E.nodes[n].get("element") != "H" or E.degree(n) != 1:
             fails.append(fail("H-molecule", "%r: new node %r is not a monovalent hydrogen" % (rsmi[:80], n)))
             break
+    # a result handed to the caller and mutated by the caller must not change the next answer
+    def snap(G):
+        return (sorted((n, repr(sorted(d.items(), key=lambda kv: kv[0]))) for n, d in G.nodes(data=True)),
+                sorted((min(u, v), max(u, v), repr(sorted(d.items()))) for u, v, d in G.edges(data=True)))
+    want = snap(I)
+    a = rsmi_to_its(rsmi)
+    for n in list(a.nodes)[:1]:
+        a.nodes[n]["charge"] = 99
+        a.remove_node(n)
+    if snap(rsmi_to_its(rsmi)) != want:
+        fails.append(fail("no-hidden-state", "%r: rsmi_to_its gives another ITS after the caller edited an earlier result" % rsmi[:80]))
     if sorted(I.nodes) and all(d["typesGH"][0][0] == d["typesGH"][1][0] for _, d in I.nodes(data=True)):
         ra = text_to_rec(smart_to_gml(rsmi, core=True))
         for nm, X in (("rsmi_to_its(core=True)", rsmi_to_its(rsmi, core=True)), ("rsmi_to_its(explicit_hydrogen=True)", E),
